@@ -72,7 +72,7 @@ def plan(tier, seed):
     n = 40 if tier == "quick" else 1200
     for s in range(16):
         tasks.append({"kind": "rand", "n": n, "seed": seed * 1000 + s, "tier": tier})
-    nb = 40 if tier == "quick" else 800
+    nb = 120 if tier == "quick" else 1500
     for s in range(4):
         tasks.append({"kind": "bounds", "n": nb, "seed": seed * 1000 + 500 + s})
     return tasks
@@ -193,11 +193,20 @@ def _true_minmax(vals):
 def bounds_case(draw):
     fields = draw(tbl.schema_fields(1, 4, allow_required=False))
     rows = draw(tbl.rows_for(fields, 1, 6))
+    if draw(st.integers(0, 7)) == 0:
+        # a batch larger than any internal write/statistics batch: the extremes sit far from the start
+        n = draw(st.sampled_from([1001, 1500, 2500, 3001]))
+        seedrows = draw(tbl.rows_for(fields, 3, 6))
+        pos = draw(st.lists(st.integers(0, n - 1), min_size=len(seedrows), max_size=len(seedrows)))
+        filler = draw(tbl.rows_for(fields, 1, 1, null_p=False))[0]
+        rows = [dict(filler) for _ in range(n)]
+        for p_, r in zip(pos, seedrows):
+            rows[p_] = r
     return {"kind": "bounds", "fields": fields, "rows": rows}
 
 
 def check_bounds(case):
-    out = {"violations": [], "labels": [], "nontrivial": True}
+    out = {"violations": [], "labels": ["big-batch"] if len(case["rows"]) > 1000 else [], "nontrivial": True}
     import pyarrow as pa
 
     with scratch_dir("c13b") as d:
@@ -227,7 +236,7 @@ def check_bounds(case):
                     okl = libv is not None and type(libv) is type(true) and libv == true
                 if not ok or not okl:
                     out["violations"].append((f"bounds/{f['type']}/roundtrip",
-                                              f"{side} bound of {f['type']} column: true {true!r}, manifest(independent) {ind!r}, library {libv!r}; values={vals!r}"))
+                                              f"{side} bound of {f['type']} column: true {true!r}, manifest(independent) {ind!r}, library {libv!r}; {len(vals)} values, e.g. {vals[:6]!r}"))
     return out
 
 
